@@ -107,12 +107,12 @@ func Assert(c bool, sig string) {
 	}
 }
 
-func Reach(label string) { cur.Reach = append(cur.Reach, label) }
-func Label(s string)     { cur.Label = s }
-func Native() bool       { return true }
-func Cut(reason string)  { panic(stop{"CUT"}) }
+func Reach(label string)   { cur.Reach = append(cur.Reach, label) }
+func Label(s string)       { cur.Label = s }
+func Native() bool         { return true }
+func Cut(reason string)    { panic(stop{"CUT"}) }
 func Concretize(x int) int { return x }
-func Itoa(x int) string  { return strconv.Itoa(x) }
+func Itoa(x int) string    { return strconv.Itoa(x) }
 
 // Observe logs a caller-visible value in the canonical form shared with symgo.
 func Observe(label string, v any) { cur.Obs = append(cur.Obs, label+"="+render(reflect.ValueOf(v))) }
